@@ -358,6 +358,30 @@ class Interp:
                 pass
         self.stats['sim_time'] += dt
 
+    def op_move_updater(self, op):
+        """The OnUpdateProcessor of each twin world spends a frame in
+        another world and comes back: it relays to the listeners of the
+        world it is in."""
+        d = self.desper
+        dt = op[1]
+        for w, x in ((self.w1, self.x1), (self.w2, self.x2)):
+            p = w.get_processor(d.OnUpdateProcessor)
+            if p is None:
+                return 'skip'
+        for w, x, which in ((self.w1, self.x1, 1), (self.w2, self.x2, 2)):
+            p = w.remove_processor(d.OnUpdateProcessor)
+            x.add_processor(p)
+            self.Upd.which = which
+            n0 = len(self.updates)
+            x.process(dt)
+            if len(self.updates) != n0:
+                self.fail('on_update', 'a frame of another world was '
+                          'relayed to the listeners of the world the '
+                          'processor had left')
+            x.remove_processor(d.OnUpdateProcessor)
+            w.add_processor(p)
+        self.probes['updater_moved_between_worlds'] += 1
+
     def op_toggle(self, op):
         self.enabled = bool(op[1])
         self.w1.dispatch_enabled = self.enabled
@@ -444,7 +468,16 @@ class Interp:
                 eff['prefix'] = s['prefix']
             for m in s.get('methods', []):
                 eff['methods'][m[0] + m[1]] = level
+        if spec.get('late_prefix'):
+            # assigned on the class after the class statement ran
+            cls.init_prefix = spec['late_prefix']
+            eff['prefix'] = spec['late_prefix']
+            self.probes['proto.prefix_assigned_late'] += 1
         proto = cls()
+        if spec.get('inst_prefix'):
+            proto.init_prefix = spec['inst_prefix']     # on the instance
+            eff['prefix'] = spec['inst_prefix']
+            self.probes['proto.prefix_assigned_late'] += 1
         for m in spec.get('inst_methods', []):
             # a callable stored on the instance: found by getattr as well
             def imake(t):
@@ -611,6 +644,14 @@ def gen_proto(rng):
         s['methods'] = meths
         levels.append(s)
     out = {'types': types, 'levels': levels}
+    if rng.random() < .15:
+        # the prefix changes after the class was created; methods with the
+        # old and the new prefix exist for some types
+        new = rng.choice(['mk_', 'build', 'init_', 'late_'])
+        out[rng.choice(['late_prefix', 'inst_prefix'])] = new
+        extra = [[new, n] for n in sorted(set(names[:ntypes]))
+                 if n not in ('prefix', 'methods') and rng.random() < .6]
+        levels[-1]['methods'] = levels[-1].get('methods', []) + extra
     if rng.random() < .12:
         pref = levels[-1].get('prefix', levels[0].get('prefix', 'init_'))
         out['inst_methods'] = [[pref, rng.choice(
@@ -643,8 +684,8 @@ def generate(prop, run_seed, tier='quick', tolerate=frozenset()):
                                           else 14))))
     nslots = crng.randint(1, 4)
     kinds = ['create', 'add', 'remove', 'query', 'delete', 'pref',
-             'process', 'toggle', 'upd', 'proto', 'adopt']
-    w = [2.5, 4, 3, 4, .8, 2, 1.5, .7, 1, .8, .5]
+             'process', 'toggle', 'upd', 'proto', 'adopt', 'move_updater']
+    w = [2.5, 4, 3, 4, .8, 2, 1.5, .7, 1, .8, .5, .3]
     for k in range(len(w)):
         if kinds[k] not in ('create', 'add') and crng.random() < .2:
             w[k] = 0
@@ -673,6 +714,8 @@ def generate(prop, run_seed, tier='quick', tolerate=frozenset()):
             elif what == 'set' and rng.random() < .25:
                 op.append('foreign')
             ops.append(op)
+        elif kind == 'move_updater':
+            ops.append(['move_updater', rng.choice(DTS)])
         elif kind == 'process':
             ops.append(['process', rng.choice(DTS)])
         elif kind == 'toggle':
@@ -736,7 +779,8 @@ PROBES = {'C19': ['form.function', 'form.method', 'form.descriptor_get',
                   'processor_from_another_world', 'world_subclass',
                   'proto.method_kind.static',
                   'proto.method_kind.class', 'proto.method_kind.partial',
-                  'proto.method_kind.instance',
+                  'proto.method_kind.instance', 'proto.prefix_assigned_late',
+                  'updater_moved_between_worlds',
                   'proto.custom_prefix', 'proto.override',
                   'proto_iterated_twice', 'same_name_types',
                   'on_update_checked', 'instance_priority']}
